@@ -4,6 +4,8 @@ U1 = "u1_sched"
 U2 = "u2_sysdata"
 U3 = "u3_world"
 U4 = "u4_meta"
+U5 = "u5_parseq"
+DBG = ("parallel", "shred-derive", "debug_assertions")
 STAR_OWNERS = ("C04",)   # the shared shape / safety clauses (`*`) belong to these; for other properties a failing `*` clause is "undecided"
 
 PROPS = {
@@ -19,6 +21,10 @@ PROPS = {
     "C09": dict(runs=[dict(unit=U3, groups=["typed"], mode="P"), dict(unit=U3, groups=["typed"], mode="T")], own_groups=["typed", "P", "T"], owns_shared=True,
                 undecided_sentences=["'every value is dropped exactly once': ownership / drop glue (trusted)", "entry / or_insert(_with) / get_mut(_raw): std hash_map::Entry and HashMap::get_mut have no vstd model (not under contract)",
                                      "'leaves the world unchanged' on a mismatching call is decided as 'the call does not return' plus the guard being the first statement of every id-taking function (mode P cannot observe state at a panic)"]),
+    "C16": dict(runs=[dict(unit=U5, groups=["tree"], mode="P", features=DBG), dict(unit=U5, groups=["tree"], mode="T", features=DBG), dict(unit=U5, groups=["tree"], mode="T")],
+                own_groups=["tree", "P", "T"], owns_shared=True,
+                undecided_sentences=["'every leaf of an earlier child finishes before any leaf of a later child starts' in time: Seq::run is two consecutive calls (program order of the verifier's sequential semantics); 'children of a par node may overlap': rayon (rule R11 treats join as calling both closures once)",
+                                     "par! / seq! macros are thin wrappers over new / with (not expanded here)"]),
     "C17": dict(runs=[dict(unit=U4, groups=["meta"], mode="P")], own_groups=["meta", "P"], owns_shared=True,
                 undecided_sentences=["'methods of the concrete type': the vtable attached is the one whose function was built for the resource's own type id (proved); that this vtable dispatches to the concrete type's methods is rustc's unsizing coercion inside the user's CastFrom impl (unsafe, trusted)",
                                      "the `nightly` feature variant is not extracted", "'in first-registration order and once each' across successive next() calls is the per-call contract iterated (no history lemma is proved)"]),
